@@ -223,8 +223,19 @@ class ClassicOptimize(OutputOptimize):
                    'assemble() of the constant rule patterns is evaluated natively; SHA-256 (memo keys) is an injective uninterpreted function',
                    'one-directional: only required when the unoptimised program returns a value']
     outside = 'larger programs; the other operators'
-    spec = {'quick': dict(leaves=(1, 2, 3), envs=(['L', 'L'],)), 'thorough': dict(leaves=(1, 2, 3, 4), envs=(['L', 'L'], ['L', ['L', 'L']]))}
+    spec = {'quick': dict(leaves=(1, 2, 3, 4), envs=(['L', 'L'],)), 'thorough': dict(leaves=(1, 2, 3, 4, 5), envs=(['L', 'L'], ['L', ['L', 'L']]))}
     loop_bound = 300
+
+    @staticmethod
+    def has_pair_head(lsh):
+        if not isinstance(lsh, list):
+            return False
+        return isinstance(lsh[0], list) or ClassicOptimize.has_pair_head(lsh[0]) or ClassicOptimize.has_pair_head(lsh[1])
+
+    classes = {
+        # ((X) . operands): a pair in operator position
+        'pair_in_operator_position': lambda case, inp: z3.BoolVal(ClassicOptimize.has_pair_head(case['prog'])),
+    }
 
     def run(self, eng, case, inp):
         eng.env['tls'] = tls(True)
